@@ -11,6 +11,7 @@
 EXTENDS Integers, Sequences, FiniteSets, TLC, Json
 
 CONSTANTS MaxOps, Mode     \* Mode: "struct" (all operations) | "write" (a fixed graph, then point batches only)
+                           \*       | "kids" (the fixed graph, then children of the managed nodes come and go)
 Cs == {"C1", "C2"}
 Par == {"R", "G", "P"}
 KidOf(c) == IF c = "C1" THEN "K1" ELSE "K2"
@@ -31,18 +32,30 @@ SetToSeqAny(S) == LET RECURSIVE f(_)
                   IN f(S)
 Snapshot == [live |-> SetToSeqAny({k[1] \o "-" \o k[2] : k \in Live'}),
              kids |-> [c \in Cs |-> SetToSeqAny(KidsOf(c)')]]
-Log(op, w) == hist' = Append(hist, [op |-> op, w |-> w] @@ Snapshot)
-Op0(k, n, p) == [k |-> k, n |-> n, p |-> p, o |-> "", b |-> 0]
-Op(k, n, p, o) == [k |-> k, n |-> n, p |-> p, o |-> o, b |-> batch]
+\* inj: the driver issues the operation while the manager sits between building the client of the
+\* owning node (reading its children) and subscribing to its updates (hook verifManagerWindow)
+LogI(op, w, inj) == hist' = Append(hist, [op |-> op, w |-> w, inj |-> inj] @@ Snapshot)
+Log(op, w) == LogI(op, w, FALSE)
+\* a client of c is about to be built: the previous operation placed c somewhere connected and
+\* the driver did not wait
+Building(c) == /\ hist # <<>>
+               /\ LET h == hist[Len(hist)] IN h.op.k = "mk" /\ h.op.n = c /\ ~h.w /\ Connected(h.op.p)
+Op0(k, n, p) == [k |-> k, n |-> n, p |-> p, o |-> "", b |-> 0, u |-> ""]
+Op(k, n, p, o) == [k |-> k, n |-> n, p |-> p, o |-> o, b |-> batch, u |-> ""]
+\* how a placement comes (back) to life: a first creation sends the node; one that was deleted is
+\* undeleted either by mirroring it again (tombstone 0 and node type on the edge) or by the bare
+\* edge point tombstone = 0 that the UI's undelete sends
+Ways(st) == IF st = "none" THEN {"node"} ELSE {"mirror", "bare"}
+MkOp(k, n, p, u) == [Op(k, n, p, "") EXCEPT !.u = u]
 
 \* "write" mode starts from: C1 below R and below G (mirror), K1 below C1, C2 below P
-SetupOps == << [op |-> Op0("mkup", "G", "R"), w |-> FALSE, live |-> <<>>, kids |-> [c \in Cs |-> <<>>]],
-               [op |-> Op0("mkup", "P", "R"), w |-> FALSE, live |-> <<>>, kids |-> [c \in Cs |-> <<>>]],
-               [op |-> Op0("mk", "C1", "R"), w |-> FALSE, live |-> <<"R-C1">>, kids |-> [c \in Cs |-> <<>>]],
-               [op |-> Op0("mk", "C1", "G"), w |-> FALSE, live |-> <<"R-C1", "G-C1">>, kids |-> [c \in Cs |-> <<>>]],
-               [op |-> Op0("mkkid", "K1", "C1"), w |-> FALSE, live |-> <<"R-C1", "G-C1">>, kids |-> ("C1" :> <<"K1">> @@ "C2" :> <<>>)],
-               [op |-> Op0("mk", "C2", "P"), w |-> TRUE, live |-> <<"R-C1", "G-C1", "P-C2">>, kids |-> ("C1" :> <<"K1">> @@ "C2" :> <<>>)] >>
-Init == IF Mode = "write"
+SetupOps == << [op |-> Op0("mkup", "G", "R"), w |-> FALSE, inj |-> FALSE, live |-> <<>>, kids |-> [c \in Cs |-> <<>>]],
+               [op |-> Op0("mkup", "P", "R"), w |-> FALSE, inj |-> FALSE, live |-> <<>>, kids |-> [c \in Cs |-> <<>>]],
+               [op |-> Op0("mk", "C1", "R"), w |-> FALSE, inj |-> FALSE, live |-> <<"R-C1">>, kids |-> [c \in Cs |-> <<>>]],
+               [op |-> Op0("mk", "C1", "G"), w |-> FALSE, inj |-> FALSE, live |-> <<"R-C1", "G-C1">>, kids |-> [c \in Cs |-> <<>>]],
+               [op |-> Op0("mkkid", "K1", "C1"), w |-> FALSE, inj |-> FALSE, live |-> <<"R-C1", "G-C1">>, kids |-> ("C1" :> <<"K1">> @@ "C2" :> <<>>)],
+               [op |-> Op0("mk", "C2", "P"), w |-> TRUE, inj |-> FALSE, live |-> <<"R-C1", "G-C1", "P-C2">>, kids |-> ("C1" :> <<"K1">> @@ "C2" :> <<>>)] >>
+Init == IF Mode \in {"write", "kids"}
         THEN /\ edge = [x \in Cs \X Par |-> IF x \in {<<"C1", "R">>, <<"C1", "G">>, <<"C2", "P">>} THEN "live" ELSE "none"]
              /\ up = [x \in {"G", "P"} |-> "live"] /\ kid = ("C1" :> "live" @@ "C2" :> "none")
              /\ hist = SetupOps /\ batch = 0
@@ -51,19 +64,19 @@ Init == IF Mode = "write"
 
 \* structural operations (w: wait for quiescence afterwards or go on at once)
 MkUp(g, w) == /\ up[g] # "live" /\ up' = [up EXCEPT ![g] = "live"] /\ UNCHANGED <<edge, kid, batch>>
-              /\ Log(Op("mkup", g, "R", ""), w)
+              /\ \E u \in Ways(up[g]) : Log(MkOp("mkup", g, "R", u), w)
 DelUp(g, w) == /\ up[g] = "live" /\ up' = [up EXCEPT ![g] = "del"] /\ UNCHANGED <<edge, kid, batch>>
                /\ Log(Op("delup", g, "R", ""), w)
 Mk(c, p, w) == /\ edge[<<c, p>>] # "live" /\ (IF p = "R" THEN TRUE ELSE up[p] # "none")
                /\ edge' = [edge EXCEPT ![<<c, p>>] = "live"] /\ UNCHANGED <<up, kid, batch>>
-               /\ Log(Op("mk", c, p, ""), w)
+               /\ \E u \in Ways(edge[<<c, p>>]) : Log(MkOp("mk", c, p, u), w)
 Del(c, p, w) == /\ edge[<<c, p>>] = "live"
                 /\ edge' = [edge EXCEPT ![<<c, p>>] = "del"] /\ UNCHANGED <<up, kid, batch>>
                 /\ Log(Op("del", c, p, ""), w)
 MkKid(c, w) == /\ Exists(c) /\ kid[c] # "live" /\ kid' = [kid EXCEPT ![c] = "live"] /\ UNCHANGED <<edge, up, batch>>
-               /\ Log(Op("mkkid", KidOf(c), c, ""), w)
+               /\ \E u \in Ways(kid[c]), inj \in {FALSE, Building(c)} : LogI(MkOp("mkkid", KidOf(c), c, u), w, inj)
 DelKid(c, w) == /\ kid[c] = "live" /\ kid' = [kid EXCEPT ![c] = "del"] /\ UNCHANGED <<edge, up, batch>>
-                /\ Log(Op("delkid", KidOf(c), c, ""), w)
+                /\ \E inj \in {FALSE, Building(c)} : LogI(Op("delkid", KidOf(c), c, ""), w, inj)
 \* point batches (C08): only issued in a quiescent system (the previous operation waited)
 \* in "write" mode nothing structural happens after the set-up, so batches go out back to back
 Quiet == IF Mode = "write" THEN TRUE ELSE IF hist = <<>> THEN TRUE ELSE hist[Len(hist)].w
@@ -71,17 +84,28 @@ Origins == {"", "self", "other", "peer"}     \* empty, the client's node id, a u
 Write(n, o) == /\ Quiet /\ Live # {}
                /\ (n \in Cs => Exists(n)) /\ (n \in {"K1", "K2"} => \E c \in Cs : KidOf(c) = n /\ kid[c] = "live")
                /\ batch' = batch + 1 /\ UNCHANGED <<edge, up, kid>>
-               /\ Log([k |-> "write", n |-> n, p |-> "", o |-> o, b |-> batch + 1], Mode # "write")
+               /\ Log([k |-> "write", n |-> n, p |-> "", o |-> o, b |-> batch + 1, u |-> ""], Mode # "write")
 WriteEdge(c, p, o) == /\ Quiet /\ edge[<<c, p>>] = "live" /\ Connected(p)
                       /\ batch' = batch + 1 /\ UNCHANGED <<edge, up, kid>>
-                      /\ Log([k |-> "writeedge", n |-> c, p |-> p, o |-> o, b |-> batch + 1], Mode # "write")
+                      /\ Log([k |-> "writeedge", n |-> c, p |-> p, o |-> o, b |-> batch + 1, u |-> ""], Mode # "write")
 
+\* in "kids" mode a client that is being built always gets a child change into its window
+Racing == Mode = "kids" /\ \E c \in Cs : Building(c)
 Next == /\ Len(hist) < MaxOps
-        /\ \/ Mode = "struct" /\ \E g \in {"G", "P"}, w \in BOOLEAN : MkUp(g, w) \/ DelUp(g, w)
-           \/ Mode = "struct" /\ \E c \in Cs, p \in Par, w \in BOOLEAN : Mk(c, p, w) \/ Del(c, p, w)
-           \/ Mode = "struct" /\ \E c \in Cs, w \in BOOLEAN : MkKid(c, w) \/ DelKid(c, w)
-           \/ \E n \in Cs \cup {"K1", "K2", "G"}, o \in Origins : Write(n, o)
-           \/ \E c \in Cs, p \in Par, o \in Origins : WriteEdge(c, p, o)
+        /\ IF Racing
+           THEN \E c \in Cs, w \in BOOLEAN :
+                   /\ Building(c)
+                   /\ \/ /\ Exists(c) /\ kid[c] # "live" /\ kid' = [kid EXCEPT ![c] = "live"] /\ UNCHANGED <<edge, up, batch>>
+                         /\ \E u \in Ways(kid[c]) : LogI(MkOp("mkkid", KidOf(c), c, u), w, TRUE)
+                      \/ /\ kid[c] = "live" /\ kid' = [kid EXCEPT ![c] = "del"] /\ UNCHANGED <<edge, up, batch>>
+                         /\ LogI(Op("delkid", KidOf(c), c, ""), w, TRUE)
+           ELSE
+           \/ Mode = "struct" /\ \E g \in {"G", "P"}, w \in BOOLEAN : MkUp(g, w) \/ DelUp(g, w)
+           \/ Mode \in {"struct", "kids"} /\ \E c \in Cs, p \in Par, w \in BOOLEAN : Mk(c, p, w) \/ Del(c, p, w)
+           \/ Mode \in {"struct", "kids"} /\ \E c \in Cs, w \in BOOLEAN : MkKid(c, w) \/ DelKid(c, w)
+           \/ Mode # "kids" /\ \E n \in Cs \cup {"K1", "K2", "G"}, o \in Origins : Write(n, o)
+           \/ Mode # "kids" /\ \E c \in Cs, p \in Par, o \in Origins : WriteEdge(c, p, o)
+           \/ Mode = "kids" /\ \E n \in {"K1", "K2"} : Write(n, "other")
 Spec == Init /\ [][Next]_evars
 Dump == Len(hist) = MaxOps => PrintT(ToJson(hist))
 =============================================================================
